@@ -3,6 +3,7 @@ C15 — property theorems.  (Helper lemmas live in `Lemmas.lean`.)
 -/
 import LimnoriaModel.C15.BootLemmas
 import LimnoriaModel.C15.ValidatorLemmas
+import LimnoriaModel.C15.NormLemmas
 namespace C15
 open Py
 
@@ -27,6 +28,21 @@ theorem repr_roundtrip (pr : Char → Bool) (s : Str) : evalLit (pyRepr pr s) = 
 fix; before it the statement failed for `"`, `'`, `""`, `'a'`, …). -/
 theorem string_roundtrip (pr : Char → Bool) (v : Str) : strSet pr (strStr pr v) = .ok v :=
   strSet_strStr quotes_table_ok pr v
+
+/-- the blank characters `normalizeWhitespace` looks for at the ends are the four it collapses -/
+theorem nw_table_ok : Gen.Registry.nwEdgeBlanks = [' ', '\n', '\t', '\r'] := by decide
+
+/-- NormalizedString: what `setValue` stores (`normalize v`, for every string `v`) is a fixed point
+of `normalize`, its `__str__` — quoted by `repr` or not — is one too, and a fresh node's
+`set(str(node))` gives the stored value back.  (The file level — line wrapping — is compared by
+the correspondence run; since the wrap fix lines are only cut at blanks.) -/
+theorem normalized_value_roundtrip (pr : Char → Bool) (v : Str) :
+    StrClass.set .normalized pr (strStr pr (StrClass.normalized.setValue v)) = .ok (StrClass.normalized.setValue v) :=
+  normalized_roundtrip_aux quotes_table_ok nw_table_ok pr v
+
+/-- `normalize` is idempotent -/
+theorem normalize_idempotent (v : Str) : normalizeNS (normalizeNS v) = normalizeNS v :=
+  normalizeNS_norm nw_table_ok _ (norm_normalizeNS nw_table_ok v)
 
 /-! ### Boolean and the Integer family -/
 
